@@ -17,3 +17,15 @@ func VerifWaiterTable(st kvs.Storage) (entries, waiters int, ok bool) {
 	}
 	return entries, waiters, true
 }
+
+// VerifWithLock runs f while holding the storage's mutex (schedule control for the checks, see internal/lockstep).
+func VerifWithLock(st kvs.Storage, f func()) bool {
+	s, ok := st.(*service)
+	if !ok {
+		return false
+	}
+	s.lock.Lock()
+	defer s.lock.Unlock()
+	f()
+	return true
+}
